@@ -45,5 +45,16 @@ func checks() map[string]CheckDef {
 		Outside: []string{"JSON binding of the request body and the gin handler shell (C16 covers the handler)", "'follows reorganisations' is the composition of this lemma (holds from every INV-H state) with C01 (Add maps INV-H to INV-H); the composition is an argument", "PostgreSQL"},
 		Stubs:   []string{"zerolog calls have no effect", "sqlx over the sqlm model"},
 	})
+	add(CheckDef{
+		ID: "C04", Level: "model_checking",
+		Runs: []HRun{
+			{Pkg: "internal/zzverif/c04", Func: "HarnessByHash", Quick: [][]int64{{3}}, Thorough: [][]int64{{5}}, Labels: []string{"C04/by-hash-found-iff-stored", "C04/by-hash-returns-that-header", "C04/absent-is-404", "C04/reads-never-modify"}},
+			{Pkg: "internal/zzverif/c04", Func: "HarnessTips", Quick: [][]int64{{3}}, Thorough: [][]int64{{4}, {5}}, Labels: []string{"C04/tips-exact-set", "C04/tip-longest", "C04/tips-only-stored"}},
+			{Pkg: "internal/zzverif/c04", Func: "HarnessAncestors", Quick: [][]int64{{3}}, Thorough: [][]int64{{4}, {5}}, Labels: []string{"C04/ancestors-error-iff-not-descendant", "C04/ancestors-exact-path"}},
+		},
+		Bounds:  []string{"arbitrary INV-H store of k rows (quick k=3, thorough k<=5), every column symbolic; query hash an arbitrary string (by-hash/state) or any ordered pair of distinct stored headers (ancestors)"},
+		Outside: []string{"by-height windows and common-ancestor (not yet encoded)", "JSON mapping of the responses (headers/model.go, tips/model.go)", "PostgreSQL", "tips: the row order of the UNION is unspecified, the result is compared as a set"},
+		Stubs:   []string{"zerolog calls have no effect", "sqlx over the sqlm model"},
+	})
 	return m
 }
